@@ -6,6 +6,9 @@ import (
 	"encoding/json"
 	"flag"
 	"fmt"
+	"go/ast"
+	"go/parser"
+	"go/token"
 	"go/types"
 	"io"
 	"os"
@@ -35,7 +38,7 @@ type opts struct {
 	repo, pkg, entry, sched, solverKind, out, mapOrder, knownFile, propID string
 	harness, patches, stubs, params                              multi
 	workers, maxSteps, maxPaths, timeoutSec, qTimeoutMs          int
-	pam, verbose, trace, noPanicViol, models                     bool
+	pam, verbose, trace, noPanicViol, models, abstract           bool
 	seed                                                         int
 }
 
@@ -47,7 +50,7 @@ func parseFlags(args []string) *opts {
 	fs.StringVar(&o.entry, "entry", "", "harness entry function")
 	fs.StringVar(&o.sched, "sched", "det", "det|msgorder|all")
 	fs.StringVar(&o.mapOrder, "maporder", "insertion", "insertion|all")
-	fs.StringVar(&o.solverKind, "solver", "z3", "z3|z3-new|cvc5|cvc5-bvint")
+	fs.StringVar(&o.solverKind, "solver", "z3-new", "z3|z3-new|cvc5|cvc5-bvint")
 	fs.StringVar(&o.out, "out", "", "result json")
 	fs.StringVar(&o.knownFile, "known", "", "known findings file")
 	fs.StringVar(&o.propID, "prop", "", "property id (for known findings)")
@@ -65,6 +68,7 @@ func parseFlags(args []string) *opts {
 	fs.BoolVar(&o.verbose, "v", false, "verbose")
 	fs.BoolVar(&o.trace, "trace", false, "trace instructions")
 	fs.BoolVar(&o.noPanicViol, "panics-ok", false, "uncaught target panics are not violations")
+	fs.BoolVar(&o.abstract, "abstract", false, "abstract div/rem/nonlinear mul as UFs for exploration; confirm counterexamples precisely")
 	fs.BoolVar(&o.models, "models", false, "collect a model for passing paths (samples)")
 	fs.Parse(args)
 	return o
@@ -123,7 +127,7 @@ func load(o *opts) (*ssa.Package, types.Sizes) {
 		addPamShim(overlay)
 		env = append(env, "CGO_LDFLAGS=-L"+filepath.Join(verifRoot(), "gosym", "pam"))
 	}
-	cfg := &packages.Config{Mode: packages.LoadAllSyntax, Dir: o.repo, Overlay: overlay, Env: env}
+	cfg := &packages.Config{Mode: packages.LoadAllSyntax, Dir: o.repo, Overlay: overlay, Env: env, ParseFile: parseFileStripped}
 	pkgs, err := packages.Load(cfg, "./"+o.pkg)
 	if err != nil {
 		fatal("load: %v", err)
@@ -135,6 +139,97 @@ func load(o *opts) (*ssa.Package, types.Sizes) {
 	_ = prog
 	spkgs[0].Build()
 	return spkgs[0], types.SizesFor("gc", "amd64")
+}
+
+// parseFileStripped parses a file; for third-party packages that the engine never interprets
+// (cloud SDKs, x/net, protobuf, ...) function bodies are dropped, which makes type-checking and
+// memory use much smaller.  A call into such a function ends the path as unsupported.
+var stripFrags = []string{"/github.com/aws/", "/github.com/!azure/", "/google.golang.org/", "/golang.org/x/net", "/golang.org/x/crypto", "/golang.org/x/oauth2",
+	"/golang.org/x/sys", "/golang.org/x/text", "/gopkg.in/", "/github.com/docker/", "/github.com/golang/protobuf", "/github.com/prometheus/", "/go.opencensus.io", "/cloud.google.com/",
+	"/github.com/googleapis/", "/github.com/jmespath/", "/github.com/dimchansky/", "/github.com/satori/", "/github.com/dgrijalva/", "/github.com/coreos/", "/github.com/lib/pq",
+	"/github.com/jmoiron/", "/github.com/gogo/", "/github.com/opencontainers/", "/github.com/!microsoft/", "/github.com/beorn7/", "/github.com/matttproud/", "/github.com/ghodss/",
+	"/github.com/fsnotify/", "/github.com/kevinburke/", "/github.com/hashicorp/", "/github.com/imdario/", "/github.com/src-d/", "/github.com/sergi/", "/github.com/xanzy/", "/github.com/emirpasic/",
+	"/github.com/jbenet/", "/github.com/mitchellh/", "/github.com/pelletier/", "/github.com/bgentry/", "/github.com/arvados/cgofuse", "/github.com/bradleypeabody/", "/github.com/go-ldap/", "/github.com/go-asn1-ber/",
+	"/src/crypto/tls", "/src/crypto/x509", "/src/net/http/httptest", "/src/vendor/", "/src/crypto/elliptic", "/src/crypto/internal/", "/src/math/big", "/src/crypto/ecdsa", "/src/crypto/rsa", "/src/crypto/ed25519",
+	"/src/encoding/asn1", "/src/compress/", "/src/debug/", "/src/go/", "/src/text/template", "/src/html/", "/src/database/", "/src/image/", "/src/archive/", "/src/mime/multipart", "/src/net/http/internal", "/src/net/smtp", "/src/net/mail"}
+
+func parseFileStripped(fset *token.FileSet, filename string, src []byte) (*ast.File, error) {
+	f, err := parser.ParseFile(fset, filename, src, parser.AllErrors|parser.ParseComments)
+	if err != nil || os.Getenv("GOSYM_NOSTRIP") != "" {
+		return f, err
+	}
+	strip := false
+	lf := strings.ToLower(filename)
+	for _, frag := range stripFrags {
+		if strings.Contains(lf, frag) {
+			strip = true
+			break
+		}
+	}
+	if strip {
+		defer blankUnusedImports(f)
+		for _, d := range f.Decls {
+			if fd, ok := d.(*ast.FuncDecl); ok && fd.Body != nil {
+				if fd.Type.Results == nil || len(fd.Type.Results.List) == 0 {
+					fd.Body = &ast.BlockStmt{Lbrace: fd.Body.Lbrace, Rbrace: fd.Body.Rbrace}
+				} else {
+					fd.Body = &ast.BlockStmt{Lbrace: fd.Body.Lbrace, Rbrace: fd.Body.Rbrace, List: []ast.Stmt{
+						&ast.ExprStmt{X: &ast.CallExpr{Fun: ast.NewIdent("panic"), Args: []ast.Expr{&ast.BasicLit{Kind: token.STRING, Value: `"gosym:stripped"`}}}}}}
+				}
+			}
+		}
+	}
+	return f, nil
+}
+
+func blankUnusedImports(f *ast.File) {
+	used := map[string]bool{}
+	ast.Inspect(f, func(n ast.Node) bool {
+		if se, ok := n.(*ast.SelectorExpr); ok {
+			if id, ok := se.X.(*ast.Ident); ok {
+				used[id.Name] = true
+			}
+		}
+		return true
+	})
+	for _, im := range f.Imports {
+		if im.Name != nil {
+			if im.Name.Name == "_" || im.Name.Name == "." {
+				continue
+			}
+			if !used[im.Name.Name] {
+				im.Name = ast.NewIdent("_")
+			}
+			continue
+		}
+		pth := strings.Trim(im.Path.Value, "\"`")
+		base := pth[strings.LastIndex(pth, "/")+1:]
+		cands := []string{base}
+		if i := strings.Index(base, ".v"); i > 0 {
+			cands = append(cands, base[:i])
+		}
+		if strings.HasPrefix(base, "go-") {
+			cands = append(cands, base[3:])
+		}
+		if strings.HasSuffix(base, "-go") {
+			cands = append(cands, base[:len(base)-3])
+		}
+		if regexp.MustCompile(`^v[0-9]+$`).MatchString(base) {
+			parts := strings.Split(pth, "/")
+			if len(parts) >= 2 {
+				cands = append(cands, parts[len(parts)-2])
+			}
+		}
+		any := false
+		for _, c := range cands {
+			if used[c] || used[strings.Replace(c, "-", "_", -1)] {
+				any = true
+			}
+		}
+		if !any {
+			im.Name = ast.NewIdent("_")
+		}
+	}
 }
 
 func addPamShim(overlay map[string][]byte) {
@@ -184,6 +279,11 @@ func workerMain(o *opts) {
 	}
 	interp.S = solver.Start(o.solverKind, o.qTimeoutMs)
 	defer interp.S.Close()
+	if o.abstract {
+		interp.S.Abstract = true
+		interp.SP = solver.Start(o.solverKind, 3*o.qTimeoutMs)
+		defer interp.SP.Close()
+	}
 	known := loadKnown(o.knownFile, o.propID)
 	in := bufio.NewReaderSize(os.Stdin, 1<<20)
 	out := bufio.NewWriter(os.Stdout)
@@ -289,6 +389,7 @@ func startWorker(args []string) (*wproc, error) {
 	exe, _ := os.Executable()
 	cmd := exec.Command(exe, append([]string{"worker"}, args...)...)
 	cmd.Stderr = os.Stderr
+	cmd.Env = append(os.Environ(), "GOMAXPROCS=4", "GOGC=200")
 	in, _ := cmd.StdinPipe()
 	outp, _ := cmd.StdoutPipe()
 	if err := cmd.Start(); err != nil {
@@ -324,20 +425,17 @@ func runMain(o *opts, rawArgs []string) int {
 		wg.Add(1)
 		go func(k int) {
 			defer wg.Done()
-			w, err := startWorker(rawArgs)
-			if err != nil {
-				startErr <- err
-				mu.Lock()
-				stop = true
-				cond.Broadcast()
-				mu.Unlock()
-				return
-			}
-			loadOnce.Do(func() { sum.LoadS = time.Since(t0).Seconds() })
-			defer func() { w.in.Close(); w.cmd.Process.Kill(); w.cmd.Wait() }()
+			var w *wproc
+			defer func() {
+				if w != nil {
+					w.in.Close()
+					w.cmd.Process.Kill()
+					w.cmd.Wait()
+				}
+			}()
 			for {
 				mu.Lock()
-				for len(work) == 0 && inflight > 0 && !stop {
+				for !stop && ((len(work) == 0 && inflight > 0) || (w == nil && k > 0 && len(work) < 3*k && inflight > 0)) {
 					cond.Wait()
 				}
 				if stop || (len(work) == 0 && inflight == 0) {
@@ -356,6 +454,20 @@ func runMain(o *opts, rawArgs []string) int {
 				inflight++
 				wantModel := o.models && len(sum.Samples) < 3
 				mu.Unlock()
+				if w == nil {
+					var err error
+					w, err = startWorker(rawArgs)
+					if err != nil {
+						startErr <- err
+						mu.Lock()
+						stop = true
+						inflight--
+						cond.Broadcast()
+						mu.Unlock()
+						return
+					}
+					loadOnce.Do(func() { sum.LoadS = time.Since(t0).Seconds() })
+				}
 
 				req, _ := json.Marshal(workReq{Prefix: pfx, Model: wantModel})
 				w.in.Write(append(req, '\n'))
